@@ -204,15 +204,15 @@ theorem rhs_sim {st s1 : HSt} {e : CExpr} {c1 : CE} (hst : st.pending = [])
   obtain ⟨hσ1, hbound, hevalC⟩ := evalCH_frag ms subs e hfrag hnd (fun v hv => (hdis v hv).2) f σC σC1 v1 hev
   subst hσ1
   -- what `chk` pops: all entries, in some order
-  obtain ⟨p1, p2, p3, p4, p5, _, p7⟩ := popPending_spec s1.pending (tmpsOfEffect base ++ [])
-  have hall : ∀ x ∈ s1.pending, x.tmp ∈ tmpsOfEffect base ++ [] := by
+  obtain ⟨p1, p2, p3, p4, p5, _, p7⟩ := popPending_spec s1.pending ([] ++ tmpsOfEffect base)
+  have hall : ∀ x ∈ s1.pending, x.tmp ∈ [] ++ tmpsOfEffect base := by
     intro x hx
-    rw [List.append_nil]
+    rw [List.nil_append]
     apply hbase
     apply hread
     rw [← hpend]
     exact List.mem_map_of_mem (f := (·.tmp)) hx
-  have hrest : (popPending s1.pending (tmpsOfEffect base ++ [])).2 = [] := by
+  have hrest : (popPending s1.pending ([] ++ tmpsOfEffect base)).2 = [] := by
     apply List.eq_nil_iff_forall_not_mem.mpr
     intro x hx
     exact p3 x hx (hall x (p2.subset hx))
